@@ -59,7 +59,8 @@ CLAIM = dict(
          "end of input (lex_stream_shape, wrap_shape, shape_prefix_closed). Proved over that shape (parser stage, partial: "
          "sub-parsers abstract): Parser.subparse never reaches `AssertionError('internal parsing error')` for any "
          "expression/statement parsers that move the position or raise TemplateSyntaxError and re-enter subparse only "
-         "through parse_statements (subparse_no_internal, parse_no_internal). Read from the source on every run "
+         "through parse_statements (subparse_no_internal, parse_no_internal); the i18n extension's trans-block loop, modelled "
+         "in full, never reaches its RuntimeError('internal parser error') (trans_block_no_internal). Read from the source on every run "
          "(Gen/FailSites.lean) and re-proved by decide: every raise/assert site of lexer, parser, compiler, idtracking, "
          "nodes, optimizer, visitor, ext that is not TemplateSyntaxError/TemplateAssertionError (or Impossible/"
          "VisitorExit/CompilerExit control flow caught in place) is on the justified allow-list "
@@ -71,8 +72,8 @@ CLAIM = dict(
          "and bisection searches over 60 nesting/chain shapes; outcome must be a template or TemplateSyntaxError with an "
          "in-source line, never another exception, a Python SyntaxError of the generated code, or a hang.",
     note="Trusted: Lean kernel; hand lexer model (tied by correspondence); the abstraction of sub-parsers; translator "
-         "for FailSites; five allow-list entries (Symbols.ref, enter_frame, RootVisitor.generic_visit, Node.__init__, "
-         "i18n _parse_block) are justified by the direct oracle only, not by a theorem (DESIGN's symbols_ref_defined and "
+         "for FailSites; four allow-list entries (Symbols.ref, enter_frame, RootVisitor.generic_visit, Node.__init__) "
+         "are justified by the direct oracle only, not by a theorem (DESIGN's symbols_ref_defined and "
          "cg_idents_valid are not attempted). Host-limit failures and the defects listed in known_findings.d/C01.json are "
          "known findings.",
     design_ref="§5 C01",
